@@ -114,6 +114,14 @@ def check_kernels(repo, chk, tier):
         if L == 1 or tier != "quick":
             oblige("E6-bw", "BWR(L=%d)(m=m0,q=q0) == i/(m0 g0)" % L, bwr.subs({m: m0, q: q0}), sp.I / (m0 * g0), BWF + "BWR", "at-pole,L=%d" % L)
 
+    # ---- below threshold: the q^2-based width is the analytic continuation q -> i|q| of the documented one
+    kk = sp.Symbol("k", positive=True)
+    for L in Ls:
+        Li = sp.Integer(L)
+        g2b = K("Gamma2", m, g0, -kk ** 2, q0 ** 2, Li, m0, d)
+        want = g0 * (sp.I * kk / q0) ** (2 * L + 1) * (m0 / m) * ref_poly(L, (q0 * d) ** 2) / ref_poly(L, -(kk * d) ** 2)
+        oblige("E6-bw", "Gamma2(L=%d) below threshold (q^2=-k^2) == documented width at q = i k" % L, g2b, want, BWF + "Gamma2", "below-threshold,L=%d" % L)
+        # Bprime_q2 below threshold (tf.where(bp > 0, bp, 1) on a sign-indefinite ratio) is data dependent: not decided
     # ---- (c) symbolic denominators
     p, p0 = sp.symbols("p p0", positive=True)
     m1, m2 = sp.symbols("m1 m2", positive=True)
